@@ -38,7 +38,10 @@ class Proof:
                  loops=(), rules=None, expect=(), canaries=1, unwind=None, unwindset=None, kind='proof',
                  bound_note=None, cbmc_flags=None, drop_flags=(), timeout=600, mem_gb=24, defines=(),
                  functions=(), mutants=(), object_bits=8, solver='--sat-solver cadical', note='', extern_c=True,
-                 no_contract=False, plain=False, assumed=(), replay=None, partial_loops=False, dead_ok=(), frame_is_property=False):
+                 no_contract=False, plain=False, assumed=(), replay=None, partial_loops=False, dead_ok=(), frame_is_property=False, slice_formula=False, nondet_static=False, unwind_loops=()):
+        self.unwind_loops = list(unwind_loops)        # [(function, ordinal of the loop in source order, bound)] -> --unwindset (ids resolved per run)
+        self.nondet_static = nondet_static            # plain VC proofs: objects with static lifetime start with arbitrary values (cbmc --nondet-static)
+        self.slice_formula = slice_formula            # cbmc --slice-formula (cone-of-influence reduction of the equation; sound)
         self.frame_is_property = frame_is_property   # True: the assigns clause itself states a claim of the property ("touches nothing else")
         self.site = None                     # optional callback failure -> site string (for known-finding matching)
         self.dead_ok = list(dead_ok)         # canaries that are expected to be unreachable under this contract
@@ -297,6 +300,9 @@ def run_proof(proof, workroot, mutate=None, keep=False, quiet=False):
         cmd += [gb, 'inst.gb']
         if proof.plain:
             cmd = ['cp', gb, 'inst.gb']
+            if proof.nondet_static and proof.nondet_static is not True:
+                # direct VC: only the named static-lifetime objects start with arbitrary values (regex on the symbol name)
+                cmd = ['goto-instrument', '--nondet-static-matching', proof.nondet_static, gb, 'inst.gb']
         rc, out, err, dt = run(cmd, cwd, proof.timeout, proof.mem_gb, log=log)
         if rc != 0:
             raise Undecided('goto-instrument failed: ' + (err + out)[-2500:])
@@ -304,12 +310,29 @@ def run_proof(proof, workroot, mutate=None, keep=False, quiet=False):
         flags = [f for f in flags if f not in proof.drop_flags]
         if proof.unwind is not None:
             flags += ['--unwind', str(proof.unwind)]
-        if proof.unwindset:
-            flags += ['--unwindset', proof.unwindset]
+        uw = [proof.unwindset] if proof.unwindset else []
+        if proof.unwind_loops:
+            lp = show_loops('inst.gb', cwd)
+            for fn, ordinal, bound in proof.unwind_loops:
+                cands = [k for k in lp if k == fn or k == fn + '_wrapped_for_contract_checking']
+                if not cands:
+                    raise Undecided('unwind bound given for %s but it has no loops' % fn)
+                by_line = sorted(lp[cands[0]], key=lambda t: (t[1], t[0]))
+                if ordinal >= len(by_line):
+                    raise Undecided('loop #%d of %s does not exist (%d loops)' % (ordinal, fn, len(by_line)))
+                uw.append('%s.%d:%d' % (cands[0], by_line[ordinal][0], bound))
+            if len(set(fn for fn, _, _ in proof.unwind_loops)) == 1 and len(proof.unwind_loops) != len(lp[cands[0]]):
+                raise Undecided('%s has %d loops but %d unwind bounds' % (fn, len(lp[cands[0]]), len(proof.unwind_loops)))
+        if uw:
+            flags += ['--unwindset', ','.join(uw)]
         if proof.solver:
             flags += proof.solver.split()
         if proof.plain:
             flags += ['--drop-unused-functions']
+        if proof.slice_formula:
+            flags += ['--slice-formula']
+        if proof.nondet_static is True:
+            flags += ['--nondet-static']
         for ob in [proof.object_bits] + [b for b in (10, 12, 14) if b > (proof.object_bits or 8)]:
             # the DFCC object sets scale with 2^object-bits, so the smallest sufficient value is used
             ccmd = ['cbmc', 'inst.gb'] + flags + (['--object-bits', str(ob)] if ob else []) + ['--json-ui', '--trace']
